@@ -209,8 +209,12 @@ def sym_confidence_proteins(ctx, cfg):
             cand.setdefault(_pair_key(owner), []).append(i)
     entries = []
     for tab_, is_t in ((tf, True), (dfile, False)):
+        prev = None
         for r in tab_.to_dict(orient="records"):
             entries.append((r, is_t))
+            if prev is not None:
+                props.append(("protein_rows_in_non_increasing_score_order", core._z(prev) >= core._z(r["score"])))
+            prev = r["score"]
     props.append(("one_entry_per_pair_with_a_unique_peptide", z3.BoolVal(len(entries) == len(cand))))
     zs, zt = s["score"], s["lab"]
     seen, chosen = set(), []
@@ -397,6 +401,10 @@ def real_conf_proteins(cfg, inp):
         if o is not None:
             cand.setdefault(_pair_key(o), []).append(i)
     entries = [(r, True) for r in tf.to_dict("records")] + [(r, False) for r in dfile.to_dict("records")]
+    for t in (tf, dfile):
+        sc_ = [float(x) for x in t["score"]]
+        if any(a < b for a, b in zip(sc_, sc_[1:])):
+            return dict(violation="protein rows not in non-increasing score order: %s" % sc_)
     if len(entries) != len(cand):
         return dict(violation="%d protein entries for %d pairs with unique peptides" % (len(entries), len(cand)))
     seen = set()
